@@ -186,7 +186,7 @@ def r3(ctx, F, sc):
             if st[0] == 'phi' and st[1] in pos_cands:
                 pos = st[1]
     if pos is None:
-        ctx.bad('C16.R3', '%s:cursor' % tag, 'cannot identify the scan cursor', term_loc(b, sc.head))
+        ctx.undecided('C16.R3', '%s: cannot identify the scan cursor' % tag)
         return
     pos_assigns = [bi for bi in blocks for st in b.blocks[bi]['stmts'] if st['dst']['l'] == pos and not st['dst']['proj']]
     some_e = set()
@@ -283,22 +283,35 @@ def _reaches_within(cfg, src, dst, head):
 
 def r4(ctx, F, sc, conf):
     fl, b, tag, cfg = sc.fl, sc.b, sc.tag, sc.cfg
+    if not sc.gates:
+        # no weak gate in front of the lookup (the lookup is asked directly, or through another fast path): nothing to agree
+        ctx.undecided('C16.R4', '%s: no has_weak_match gate in the scan loop: how the lookup is reached is not decided' % tag)
+        return
+    if not sc.digests:
+        ctx.undecided('C16.R4', '%s: the rolling digest that keys the gate was not found in the scan loop' % tag)
+        return
     ok = bool(sc.gates) and bool(sc.digests)
     why = ''
-    for gb, gt in sc.gates:
-        go = {(o.kind, o.key, o.bb) for o in fl.origins(gt['args'][1])}
-        gtbl = {(o.kind, o.key, o.bb) for o in fl.origins(gt['args'][0])}
-        dig = all(k == 'call' and key.endswith('::digest') for k, key, _ in go) and bool(go)
-        for lb, lt in sc.lookups:
-            wa = lookup_weak_arg(F, lt)
-            if wa is None:
-                continue
-            lo = {(o.kind, o.key, o.bb) for o in fl.origins(wa)}
-            ltbl = {(o.kind, o.key, o.bb) for o in fl.origins(lt['args'][0])}
+    # every lookup sits behind a gate that asks the same table with the same rolling digest (several copies of the scan loop -
+    # a re-scan path - pair up one by one)
+    for lb, lt in sc.lookups:
+        wa = lookup_weak_arg(F, lt)
+        if wa is None:
+            continue
+        lo = {(o.kind, o.key, o.bb) for o in fl.origins(wa)}
+        ltbl = {(o.kind, o.key, o.bb) for o in fl.origins(lt['args'][0])}
+        paired = False
+        for gb, gt in sc.gates:
+            go = {(o.kind, o.key, o.bb) for o in fl.origins(gt['args'][1])}
+            gtbl = {(o.kind, o.key, o.bb) for o in fl.origins(gt['args'][0])}
+            dig = all(k == 'call' and key.endswith('::digest') for k, key, _ in go) and bool(go)
             same = lo == go and ltbl == gtbl
             guarded = bool(fl.outcomes(gb).get('true')) and cfg.edges_guard(fl.outcomes(gb)['true'], lb)
-            ok = ok and dig and same and guarded
-            why = 'gate key is the rolling digest: %s; lookup uses the same table and key: %s; lookup only behind the gate: %s' % (dig, same, guarded)
+            if dig and same and guarded:
+                paired = True
+            else:
+                why = why or 'gate key is the rolling digest: %s; lookup uses the same table and key: %s; lookup only behind the gate: %s' % (dig, same, guarded)
+        ok = ok and paired
     ctx.check(ok, 'C16.R4', '%s:gate-and-lookup-agree' % tag, 'has_weak_match(w) and find_match(w, ..) on the same table with the rolling digest w',
               'the weak gate and the confirming lookup do not query the same table with the same key (%s)' % why, term_loc(b, sc.head))
     # has_weak_match / find_match read the same map; find_match examines all candidates
